@@ -147,7 +147,7 @@ func runMutant(exe, repo, verif string, m mutant) mutantResult {
 	}
 	for _, f := range fs {
 		res.Reported = append(res.Reported, f.Rule+" "+f.Func+": "+f.Construct)
-		if f.Rule == m.Expect && f.Kind == "violation" {
+		if f.Rule == m.Expect {
 			res.Status = "detected"
 		}
 	}
